@@ -5,6 +5,7 @@
 package vh
 
 import (
+	"syscall"
 	"encoding/json"
 	"fmt"
 	"os"
@@ -216,6 +217,33 @@ func (r *Run) Violationf(key string, c interface{}, format string, a ...interfac
 }
 
 // ReplayCase unmarshals the case of a replay file, if one was given.
+// Guard records the case that is about to be handed to the code under test.  If the process dies inside it
+// (fatal out-of-memory, stack overflow, kill by the OOM killer) the orchestrator attributes the death to this case
+// and reports it as a violation with the given key, instead of ending in an infrastructure error.  Unguard removes
+// the record.  Use it around calls whose cost is decided by the code under test.
+func (r *Run) Guard(key, detail string, c interface{}) {
+	if r.out == "" {
+		return
+	}
+	b, _ := json.Marshal(map[string]interface{}{"key": key, "detail": detail, "case": c})
+	_ = os.WriteFile(r.out+".guard", b, 0644)
+}
+
+func (r *Run) Unguard() {
+	if r.out != "" {
+		_ = os.Remove(r.out + ".guard")
+	}
+}
+
+// LimitMemory caps the address space of this process (RLIMIT_AS): a runaway allocation then ends the process with
+// "fatal error: out of memory" instead of exhausting the machine.
+func LimitMemory(bytes uint64) {
+	var cur syscall.Rlimit
+	if syscall.Getrlimit(syscall.RLIMIT_AS, &cur) == nil {
+		_ = syscall.Setrlimit(syscall.RLIMIT_AS, &syscall.Rlimit{Cur: bytes, Max: cur.Max})
+	}
+}
+
 // IsReplay reports whether the run replays one recorded case.
 func (r *Run) IsReplay() bool { return r.replay != nil }
 
